@@ -73,14 +73,14 @@ contract(
     }},
     loop_vars={"loop#1": {"g_in": "bool[n+1]", "g_pos": "int[n+1]", "g_W": "int[n+1]"}},
     ghost=[
-        ("before:for current_obs_ind in observation_indices:",
+        ("before:for current_obs_ind in *",
          "g_in = lam('bool', n + 1, lambda s: s == 0)\n"
          "g_pos = lam('int', n + 1, lambda s: 0)\n"
          "g_W = lam('int', n + 1, lambda s: 0)"),
-        ("after:cost_eval_starts = np.concatenate((cost_eval_starts, latest_start))",
+        ("after:cost_eval_starts = np.concatenate(*",
          "g_in = lam('bool', n + 1, lambda s: s == latest_start[0] or g_in[s])\n"
          "g_pos = lam('int', n + 1, lambda s: ite(s == latest_start[0], len(cost_eval_starts) - 1, g_pos[s]))"),
-        ("after:candidate_opt_costs = opt_cost[cost_eval_starts] + agg_costs + penalty",
+        ("after:candidate_opt_costs = *",
          # the optimal last start of the current prefix is still a candidate (the pruning argument), hence the minimum is PF(T)
          f"g_star = PA({TOK}, {M}, penalty, {T})\n"
          f"assert Adm(g_star, {T}, {M}) and {F(T)} == {F('g_star')} + {C('g_star', T)} + penalty\n"
@@ -88,9 +88,9 @@ contract(
          f"assert g_in[g_star]\n"
          f"assert candidate_opt_costs[g_pos[g_star]] == {F(T)}\n"
          f"assert forall(range(len(cost_eval_starts)), lambda k: candidate_opt_costs[k] >= {F(T)})"),
-        ("before:cost_eval_starts = cost_eval_starts[keep]",
+        ("before:cost_eval_starts = cost_eval_starts[*",
          "g_spt0 = start_prune_times\ng_in0 = g_in\ng_pos0 = g_pos\ng_W0 = g_W"),
-        ("after:start_prune_times = start_prune_times[keep]",
+        ("after:start_prune_times = start_prune_times[*",
          "g_W = lam('int', n + 1, lambda s: ite(g_in0[s] and not keep[g_pos0[s]], g_spt0[g_pos0[s]], g_W0[s]))\n"
          "g_in = lam('bool', n + 1, lambda s: g_in0[s] and keep[g_pos0[s]])\n"
          "g_pos = lam('int', n + 1, lambda s: gather_pos(cost_eval_starts, g_pos0[s]))"),
